@@ -1,6 +1,6 @@
 """C04 — aggregation never releases an invalid signature; blames exactly the cheaters."""
 from ..lib import *
-from ..guards import only_err
+from ..guards import only_err, peel_result
 from ..terms import TermCx, fmt
 
 CORE = "frost_core::"
@@ -16,6 +16,47 @@ def next_item(src):
 
 def tfield(base, idx):
     return lambda t: isinstance(t, tuple) and t[0] == "field" and t[2] is None and t[3] == str(idx) and base(t[1])
+
+
+def verified_aggregate_released(ctx):
+    """completeness of aggregation: once the aggregate signature has verified under the group key, nothing can refuse it any
+    more — from every success edge of that verification only Ok returns are reachable, in every cheater-detection mode (the
+    per-share scan, which ends in an error, runs only after a failed verification)"""
+    P = ctx.prog
+    agg = ctx.anchor(CORE + "aggregate_custom")
+    if not agg:
+        return
+    v = FnView.get(P, agg)
+    ret_terms = [v.cx.operand(rv["ops"][0]) for (b, k, rv) in ret_writes(agg) if k == "ok"]
+    pk, sp = hooked(arg(3)), hooked(arg(1))
+
+    def is_verify(t):
+        t = peel_result(t)
+        if not (is_call(t, name="verify_signature") or is_call(t, name="verify")) or len(t[2]) < 3:
+            return False
+        a = t[2]
+        msg, sig, key = (a[0], a[1], a[2]) if is_call(t, name="verify_signature") else (a[1], a[2], a[0])
+        return fld(pk, "verifying_key")(key) and fld(sp, "message")(msg) and any(sig == r for r in ret_terms)
+    edges = sorted({e for (e, fa) in v.own_facts if ((fa[0] == "succ" and fa[2]) or (fa[0] == "cond" and fa[1] == "success" and fa[4]))
+                    and is_verify(fa[1] if fa[0] == "succ" else fa[2])})
+    bad = []
+    seen_after = []
+    for e in edges:
+        r = reach_flagaware(agg, v, e[1])
+        ws = [(b, k) for (b, k, _) in ret_writes(agg) if b in r]
+        if not ws:
+            seen_after.append(e)      # a test of the result after the return value was written (drop elaboration): no verdict
+            continue
+        if any(k != "ok" for _, k in ws):
+            bad.append((e, [(loc_of(agg, b), k) for b, k in ws if k != "ok"]))
+    edges = [e for e in edges if e not in seen_after]
+    if not edges:
+        # the verification's Result returned / matched as a value: decided by G05 on the returned value; nothing to add here
+        ctx.note("SEP", agg.key, "verified-aggregate-is-released: no branch on the verification result (value form)")
+        return
+    ctx.check(not bad, "SEP", agg.key, "verified-aggregate-is-released",
+              "after the aggregate signature verified under the group key, aggregate_custom can still return an error (%s): "
+              "an honest signing session may be refused" % bad[:2], agg.loc, {"success_edges": edges})
 
 
 def verify_before_release(ctx):
